@@ -4,11 +4,11 @@
   Property theorems over the model `Lungo.Model.GridFS` (mirror of /repo/bucket.go) and the
   specs `Lungo.Spec.Chunks` (the demanded chunking) and `Lungo.Spec.Reader` (bytes.Reader).
   Hypotheses common to the upload theorems:
-    0 < c            the chunk size is positive (the real upload() loop does not terminate for c = 0
-                     and panics for c < 0; DownloadStream.load rejects c ≤ 0)
-    c ≤ B            the chunk size does not exceed the upload buffer (B = gridfs.UploadBufferSize =
-                     16 MiB in the real code).  For c > B the real Write spins forever once the buffer
-                     is full; the model reports `Err.diverged` (see `write_diverges_when_chunk_exceeds_buffer`).
+    0 < c ≤ B        the chunk size is positive and does not exceed the upload buffer (B =
+                     gridfs.UploadBufferSize = 16 MiB in the real code).  OpenUploadStreamWithID rejects
+                     every other chunk size before anything is stored (`open_rejects_bad_chunk_size`,
+                     `upload_rejects_bad_chunk_size`), and accepts exactly these (`open_accepts_good_chunk_size`),
+                     so the hypothesis is the precondition of having a stream at all.
     the file id is fresh in the store (no chunk, file or marker document carries it).
 -/
 import Lungo.Proofs.GridFSUpload
@@ -78,31 +78,31 @@ theorem upload_partition_independent (st : Store) (id c B : Nat) (hc : 0 < c) (h
 
 /-- **download_simulates.**  Over a store that holds the file record ⟨id, L, c⟩ and the spec chunking of
     `content` (which is what `upload_chunks` establishes), OpenDownloadStream succeeds and every script
-    of Read / Seek / Skip operations (whence ∈ {0,1,2}) yields, step by step, the same bytes, the same
-    returned count or position, the same position afterwards and the corresponding error (none, io.EOF,
-    negative position) as the same script on the in-memory reader of `content`.  The relation carried
+    of Read / Seek / Skip operations — any offsets, any whence — yields, step by step, the same bytes, the
+    same returned count or position, the same position afterwards and the corresponding error (none,
+    io.EOF, negative position, invalid whence) as the same script on the in-memory reader of `content`.  The relation carried
     through the induction is `Sim` (Proofs/GridFSDownload.lean). -/
 theorem download_simulates (st : Store) (id c : Nat) (content : Bytes) (hc : 0 < c)
     (hfile : st.findFile id = some ⟨id, content.length, c⟩)
     (hchunks : st.chunksOfFile id = mkDocs id 0 (chunksOf c content))
-    (script : List ROp) (hvalid : ∀ op ∈ script, op.valid) :
+    (script : List ROp) :
     ∃ ds, DownloadStream.open st id = .ok ds ∧
       Forall2 OutMatch (ds.run st script) (Reader.run ⟨content, 0⟩ script) := by
   have wf : WF st id c content := ⟨hc, hfile, hchunks⟩
   obtain ⟨ds, h1, h2⟩ := sim_open wf
-  exact ⟨ds, h1, sim_run wf script ds _ h2 hvalid⟩
+  exact ⟨ds, h1, sim_run wf script ds _ h2⟩
 
 /-- end-to-end: upload any partition of `content`, then run any script on the download stream -/
 theorem upload_then_download (st : Store) (id c B : Nat) (hc : 0 < c) (hcB : c ≤ B)
     (hC : ∀ d ∈ st.chunks, d.file ≠ id) (hF : ∀ f ∈ st.files, f.id ≠ id) (hM : ∀ m ∈ st.markers, m.file ≠ id)
     (hfresh : ∀ m ∈ st.markers, m.id < st.nextId)
     (content : Bytes) (ws : List Bytes) (hws : ws.flatten = content)
-    (script : List ROp) (hvalid : ∀ op ∈ script, op.valid) :
+    (script : List ROp) :
     ∃ ds, DownloadStream.open (uploadAll st false id c B ws).1 id = .ok ds ∧
       Forall2 OutMatch (ds.run (uploadAll st false id c B ws).1 script) (Reader.run ⟨content, 0⟩ script) := by
   obtain ⟨_, h2, h3, _⟩ := uploadAll_untracked st id c B hc hcB hC hF hM hfresh ws
   rw [hws] at h2 h3
-  apply download_simulates _ id c content hc _ (chunksOfFile_eq _ st.chunks id _ h2 hC) script hvalid
+  apply download_simulates _ id c content hc _ (chunksOfFile_eq _ st.chunks id _ h2 hC) script
   unfold Store.findFile
   rw [h3, List.find?_append]
   have : st.files.find? (fun f => f.id == id) = none := by
@@ -199,21 +199,71 @@ theorem delete_tracked_leaves_nothing (st : Store) (id c B : Nat) (hc : 0 < c) (
   simp [delete, Store.findMarker, Store.insertMarker, cleanup, cleanupLoop, Store.deleteFile, Store.deleteChunks,
     Store.deleteMarkerById, hf, hch]
 
-/-! ### Boundary of the property (behaviours of the code that the hypotheses exclude) -/
+/-! ### The guards of the code: unusable chunk sizes and unknown whence values are rejected -/
 
-/-- DownloadStream.Seek accepts an unknown `whence` and seeks to position 0, where the in-memory reader
-    (bytes.Reader) reports an error and stays where it is. -/
+/-- **open_rejects_bad_chunk_size.**  OpenUploadStreamWithID fails for a chunk size ≤ 0 or above the upload
+    buffer; no stream exists afterwards (the function does not touch the store). -/
+theorem open_rejects_bad_chunk_size (tracked : Bool) (id : Nat) (c : Int) (B : Nat) (h : c ≤ 0 ∨ c > B) :
+    openUpload tracked id c B = .error .badChunkSize := by
+  unfold openUpload
+  rw [if_pos h]
+
+/-- every other chunk size is accepted, and the stream satisfies 0 < chunkSize ≤ bufCap -/
+theorem open_accepts_good_chunk_size (tracked : Bool) (id : Nat) (c : Int) (B : Nat) (h0 : 0 < c) (hB : c ≤ B) :
+    openUpload tracked id c B = .ok (UploadStream.new tracked id c.toNat B) ∧
+    0 < c.toNat ∧ c.toNat ≤ B := by
+  unfold openUpload
+  rw [if_neg (by omega)]
+  exact ⟨rfl, by omega, by omega⟩
+
+/-- **upload_rejects_bad_chunk_size.**  A whole upload (open; writes; Close) with such a chunk size
+    fails and leaves the store unchanged, whatever is written. -/
+theorem upload_rejects_bad_chunk_size (st : Store) (tracked : Bool) (id : Nat) (c : Int) (B : Nat)
+    (h : c ≤ 0 ∨ c > B) (ws : List Bytes) :
+    upload st tracked id c B ws = (st, some .badChunkSize) := by
+  unfold upload
+  rw [open_rejects_bad_chunk_size tracked id c B h]
+
+/-- with an accepted chunk size, `upload` is the `uploadAll` of the theorems above -/
+theorem upload_eq_uploadAll (st : Store) (tracked : Bool) (id : Nat) (c : Int) (B : Nat) (h0 : 0 < c) (hB : c ≤ B)
+    (ws : List Bytes) :
+    upload st tracked id c B ws = uploadAll st tracked id c.toNat B ws := by
+  unfold upload uploadAll
+  rw [(open_accepts_good_chunk_size tracked id c B h0 hB).1]
+
+/-- **write_never_diverges.**  On every stream created by OpenUploadStreamWithID — and on every stream
+    reached from it, since Write/upload keep 0 < chunkSize ≤ bufCap and a non-full buffer — the fuel of the
+    Write loop is never exhausted, for any store and any data (errors of the store are passed on). -/
+theorem write_never_diverges (st : Store) (s : UploadStream) (data : Bytes)
+    (hc : 0 < s.chunkSize) (hcB : s.chunkSize ≤ s.bufCap) (hb : s.buffer.length < s.bufCap) :
+    (s.write st data).2.2.2 ≠ some .diverged := by
+  unfold UploadStream.write
+  split
+  · intro h; cases h
+  · exact writeLoop_never_diverges (data.length + 1) st s data 0 hc hcB hb (by omega)
+
+/-- the instance for a freshly opened stream -/
+theorem write_never_diverges_after_open (st : Store) (tracked : Bool) (id : Nat) (c : Int) (B : Nat)
+    (s : UploadStream) (h : openUpload tracked id c B = .ok s) (data : Bytes) :
+    (s.write st data).2.2.2 ≠ some .diverged := by
+  unfold openUpload at h
+  split at h
+  · cases h
+  · rename_i hg
+    cases h
+    apply write_never_diverges
+    · show 0 < c.toNat; omega
+    · show c.toNat ≤ B; omega
+    · show (0 : Nat) < B; omega
+
+/-- **seek_invalid_whence.**  An unknown `whence` is an error on both sides and neither side moves. -/
 theorem seek_invalid_whence (st : Store) (ds : DownloadStream) (r : Reader) (o w : Int)
     (hcl : ds.closed = false) (hw : w ≠ 0 ∧ w ≠ 1 ∧ w ≠ 2) :
-    ds.seek st o w = ds.seekPos st 0 ∧ r.seek o w = (r, 0, some .invalidWhence) := by
+    ds.seek st o w = (ds, 0, some .invalidWhence) ∧ r.seek o w = (r, 0, some .invalidWhence) := by
   obtain ⟨h0, h1, h2⟩ := hw
   unfold DownloadStream.seek Reader.seek
   rw [hcl]
   simp [h0, h1, h2]
-
-/-- For a chunk size above the buffer size the Write loop makes no progress once the buffer is full
-    (the model's fuel runs out; the real code spins forever). -/
-example : (UploadStream.write {} (UploadStream.new false 1 3 2) [1, 2, 3]).2.2.2 = some .diverged := by decide
 
 /-! ### Non-vacuity: concrete instances meet the hypotheses, and the model computes the expected values -/
 
@@ -232,8 +282,16 @@ example := upload_partition_independent {} 1 4 8 (by decide) (by decide) (by sim
 /-- a script with reads across chunk boundaries, seeks from all three origins, a negative target and EOF -/
 example := upload_then_download {} 1 4 8 (by decide) (by decide) (by simp) (by simp) (by simp) (by simp)
   [1, 2, 3, 4, 5, 6, 7, 8, 9, 10, 11, 12, 13] [[1, 2, 3, 4, 5], [6, 7, 8, 9, 10, 11, 12, 13]] rfl
-  [.read 5, .seek (-3) 2, .read 10, .read 1, .skip (-20), .seek 6 0, .seek 1 1, .read 0, .read 3]
-  (by intro op h; simp at h; rcases h with h | h | h | h | h | h | h | h | h <;> subst h <;> simp [ROp.valid])
+  [.read 5, .seek (-3) 2, .read 10, .read 1, .skip (-20), .seek 6 0, .seek 1 1, .seek 0 3, .read 0, .read 3]
+
+example : openUpload false 1 0 8 = .error .badChunkSize ∧ openUpload false 1 (-1) 8 = .error .badChunkSize ∧
+    openUpload true 1 9 8 = .error .badChunkSize :=
+  ⟨open_rejects_bad_chunk_size _ _ _ _ (by decide), open_rejects_bad_chunk_size _ _ _ _ (by decide),
+   open_rejects_bad_chunk_size _ _ _ _ (by decide)⟩
+
+example := (open_accepts_good_chunk_size false 1 8 8 (by decide) (by decide)).1
+
+example := upload_rejects_bad_chunk_size {} false 1 9 8 (by decide) [[1, 2, 3]]
 
 /-- the reader side of that script, computed -/
 example : (Reader.run ⟨[1, 2, 3, 4, 5, 6, 7, 8, 9, 10, 11, 12, 13], 0⟩
